@@ -254,7 +254,35 @@ func (w *world) learn(ds datas.Dataset, id int) {
 	}
 }
 
+// The NBS file manifest gives up on its file lock after 100 ms (lockFileTimeout) and the call fails
+// before touching the manifest; on a heavily loaded machine that happens spuriously.  Such a call
+// is repeated, as a client would, so that the observation is the outcome of a call that ran.
+func isLockTimeout(msg string) bool { return strings.Contains(msg, "lock timeout exceeded") }
+
+func retryLock(f func() error) error {
+	var err error
+	for i := 0; i < 100; i++ {
+		if err = f(); err == nil || !isLockTimeout(err.Error()) {
+			return err
+		}
+		time.Sleep(5 * time.Millisecond)
+	}
+	return err
+}
+
 func (w *world) doOp(c *client, a Act) OpObs {
+	var o OpObs
+	for i := 0; i < 100; i++ {
+		o = w.doOpOnce(c, a)
+		if !(o.Res == "other" && isLockTimeout(o.Msg)) {
+			break
+		}
+		time.Sleep(5 * time.Millisecond)
+	}
+	return o
+}
+
+func (w *world) doOpOnce(c *client, a Act) OpObs {
 	ctx := w.ctx
 	var o OpObs
 	headOf := func(n int) (datas.Dataset, int) {
@@ -335,10 +363,18 @@ type storeFactory struct {
 	ctx context.Context
 }
 
-func (f *storeFactory) open() (chunks.ChunkStore, error) {
+func (f *storeFactory) open() (cs chunks.ChunkStore, err error) {
 	if f.mem != nil {
 		return f.mem.NewViewWithDefaultFormat(), nil
 	}
+	err = retryLock(func() error {
+		cs, err = f.openNBS()
+		return err
+	})
+	return cs, err
+}
+
+func (f *storeFactory) openNBS() (chunks.ChunkStore, error) {
 	return nbs.NewLocalStore(f.ctx, types.Format_DOLT.VersionString(), f.dir, 1<<20, nbs.NewUnlimitedMemQuotaProvider(), false)
 }
 
@@ -348,14 +384,18 @@ type rawRef struct {
 }
 
 // all names are read from ONE store root (the root cached by a freshly opened view)
-func readRefsRaw(ctx context.Context, f *storeFactory, names []int) ([]rawRef, error) {
-	cs, err := f.open()
-	if err != nil {
-		return nil, err
-	}
-	db := datas.NewDatabase(cs)
-	defer db.Close()
-	return readRefsFrom(ctx, db, names)
+func readRefsRaw(ctx context.Context, f *storeFactory, names []int) (out []rawRef, err error) {
+	err = retryLock(func() error {
+		cs, err := f.open()
+		if err != nil {
+			return err
+		}
+		db := datas.NewDatabase(cs)
+		defer db.Close()
+		out, err = readRefsFrom(ctx, db, names)
+		return err
+	})
+	return out, err
 }
 
 // reads every name from the root currently cached by db's view (one store root)
@@ -554,11 +594,17 @@ func Run(raw json.RawMessage) (any, error) {
 				defer sampler.Done()
 				for n := 0; n < 400; n++ {
 					if err := rcs.Rebase(ctx); err != nil {
+						if isLockTimeout(err.Error()) {
+							continue
+						}
 						samplerErr = err
 						return
 					}
 					r, err := readRefsFrom(ctx, rdb, c.Names)
 					if err != nil {
+						if isLockTimeout(err.Error()) {
+							continue
+						}
 						samplerErr = err
 						return
 					}
@@ -592,7 +638,7 @@ func Run(raw json.RawMessage) (any, error) {
 			cl := clients[a.C]
 			switch a.K {
 			case "rebase":
-				if err := cl.cs.Rebase(ctx); err != nil {
+				if err := retryLock(func() error { return cl.cs.Rebase(ctx) }); err != nil {
 					return nil, err
 				}
 			case "get":
